@@ -38,7 +38,7 @@ func (c07) Describe() engine.Info {
 			"Oracle: before/after diff of all 65,536 readable locations around the single write; the set of changed locations must be a subset of the documented effect set of the address (own location and echo; ROM/RAM windows for cartridge control; DIV/TAC: FF04-FF05; LCDC: FF40, FF41, FF44; FF46: FF46 and FE00-FEFF; NR52: FF10-FF3F; NRx0/NRx2/NRx4: own, NR52, wave RAM window for channel 3; wave RAM: FF30-FF3F; LYC: FF45, FF41; TMA: FF06, FF05). Signature = (written register or region, LCD on, sound on, DMA running, changed-set class)." +
 			" Warm-ups also press and release keys.",
 		Assumptions:    []string{"reads used for the observation are free of side effects (OAM is peeked)", "no machine cycle elapses between the two observations, so only the write can cause a difference"},
-		RequiredProbes: []string{"sound_warmup_all_channels_on", "diffs", "write_with_lcd_on", "write_with_dma_running", "write_with_sound_on", "write_changed_other_location_legally", "key_event_in_warm_up"},
+		RequiredProbes: []string{"sound_warmup_all_channels_on", "diffs", "write_with_lcd_on", "write_with_dma_running", "write_with_sound_on", "write_changed_other_location_legally", "key_event_in_warm_up", "control_write_and_store_unobserved_in_between"},
 		RealComponents: realComponents, StubComponents: stubComponents,
 		Sweeps: []string{"every address of FF00-FFFF is written in some scenario of class io (256 addresses / 40 per scenario, index-enumerated)"},
 	}
@@ -103,6 +103,18 @@ func (c07) Generate(r *engine.Rand, index int, tier string) *engine.Scenario {
 	} else {
 		sc.Class = "any"
 		for i := 0; i < 40; i++ {
+			if (sc.Cart.Kind == "mbc1" || sc.Cart.Kind == "mbc5") && r.Chance(1, 5) {
+				// a cartridge-control write directly followed by a store into the RAM window, with no look at
+				// the machine in between: judged together (the union of what the two may change), and the
+				// cartridge windows afterwards are those of the reference cartridge
+				if r.Chance(1, 3) {
+					add(0x0000+uint16(r.Intn(0x2000)), 0x0a)
+				}
+				ctl := engine.Pick(r, []uint16{0x4000, 0x4000, 0x6000, 0x2000, 0x0000, 0x3000}) + uint16(r.Intn(0x1000))
+				sc.Events = append(sc.Events, engine.Event{At: at, K: "bus_w", A: ctl, V: r.EdgeByte(), S: "blind"}) // same boundary as the store: no machine cycle in between
+				add(0xa000+uint16(r.Intn(0x2000)), r.EdgeByte())
+				continue
+			}
 			var a uint16
 			switch r.Intn(8) {
 			case 0:
@@ -199,7 +211,12 @@ func (c07) Execute(sc *engine.Scenario) *engine.Result {
 	tim.Reset(m.Tim.VerifCounter())
 	m.OnCycle = func() { tim.Tick() }
 	realWrite := m.Write
+	img, _ := cartBuild(sc.Cart)
+	ct := dmgref.NewCart(img)
 	write := func(a uint16, v uint8) {
+		if a < 0x8000 || (a >= 0xa000 && a < 0xc000) {
+			ct.Write(a, v)
+		}
 		switch a {
 		case 0xff04:
 			tim.WriteDIV()
@@ -316,6 +333,7 @@ func (c07) Execute(sc *engine.Scenario) *engine.Result {
 		copy(dst[0xfe00:0xfea0], o[:])
 	}
 	var before, after [0x10000]uint8
+	blindCtl := uint16(0) // address of a control write performed without observation (0: none)
 	dg := engine.NewDigest()
 	ei := 0
 	base := m.N // the judged writes are timed relative to the end of the warm-up
@@ -329,7 +347,16 @@ func (c07) Execute(sc *engine.Scenario) *engine.Result {
 			lcdOn := m.Read(0xff40)&0x80 != 0
 			sndOn := m.Read(0xff26)&0x80 != 0
 			dmaOn, _ := m.OAM.VerifDMA()
-			snap(&before)
+			if blindCtl == 0 {
+				snap(&before)
+			}
+			if ev.S == "blind" {
+				// not looked at: judged together with the store that follows
+				write(ev.A, ev.V)
+				blindCtl = ev.A
+				res.Fault("bus_write")
+				continue
+			}
 			// OAM as a guest would read it during DMA is FF: the bus view matters for FE00-FEFF when a DMA starts
 			write(ev.A, ev.V)
 			snap(&after)
@@ -363,10 +390,35 @@ func (c07) Execute(sc *engine.Scenario) *engine.Result {
 				if uint16(c) != ev.A {
 					changedOther = true
 				}
+				if blindCtl != 0 && c07Allowed(blindCtl, uint16(c)) {
+					continue
+				}
+				if c == 0xff26 && ev.A != 0xff26 && res.Violation == nil {
+					// a channel's registers switch that channel on or off, not another one
+					if bit, ok := map[uint16]uint8{0xff10: 1, 0xff12: 1, 0xff14: 1, 0xff17: 2, 0xff19: 2, 0xff1a: 4, 0xff1e: 4, 0xff21: 8, 0xff23: 8}[ev.A]; ok && blindCtl == 0 {
+						if d := (before[c] ^ after[c]) &^ bit; d != 0 {
+							res.Fail(fmt.Sprintf("C07/%s-changes-other-channel-status", c07Name(ev.A)), m.N, "write %04x<-%02x changed NR52 from %02x to %02x: the status bit of another channel (mask %02x) changed", ev.A, ev.V, before[c], after[c], d)
+							break
+						}
+					}
+				}
 				if !c07Allowed(ev.A, uint16(c)) {
 					res.Fail(fmt.Sprintf("C07/%s-changes-%s", c07Name(ev.A), c07Name(uint16(c))), m.N, "write %04x<-%02x changed %04x from %02x to %02x (LCD on=%v, sound on=%v, DMA running=%v), which is not a documented effect of that write", ev.A, ev.V, c, before[c], after[c], lcdOn, sndOn, dmaOn)
 					break
 				}
+			}
+			if blindCtl != 0 && res.Violation == nil {
+				res.Probe("control_write_and_store_unobserved_in_between")
+				for c := 0; c < 0xc000; c++ {
+					if c >= 0x8000 && c < 0xa000 {
+						continue
+					}
+					if want, _ := ct.Read(uint16(c)); after[c] != want {
+						res.Fail("C07/cart-windows-after-control-and-store", m.N, "write %04x<-?? and store %04x<-%02x with no observation in between: %04x reads %02x afterwards, the reference cartridge says %02x", blindCtl, ev.A, ev.V, c, after[c], want)
+						break
+					}
+				}
+				blindCtl = 0
 			}
 			if changedOther && res.Violation == nil {
 				res.Probe("write_changed_other_location_legally")
